@@ -1,20 +1,23 @@
 import TxdbusModel.Wire.PyVal
 /-
-Code model of `sigFromPy` (txdbus/marshal.py:243-310) after two repairs:
-  * 6ba9f66: a plain `int` selects 'i' / 'x' / 't' by range (F28);
-  * fixes/C19-01-dict-value-signature.patch: the dict rule takes the value signature from the FIRST
-    value - the one whose class `same` was judged against - instead of the last one.
-The code as it was before both repairs is `sigFromPyOrig` in Wire/InferOrig.lean (witnesses only).
+Code model of `sigFromPy` (txdbus/marshal.py) after four repairs:
+  * 6ba9f66 (F28): a plain `int` selects 'i' / 'x' / 't' by range;
+  * f62e6a7 (fixes/C19-01): the dict rule takes the value signature from the FIRST value;
+  * fixes/C19-02: the list and dict rules compare the EXACT class (`type(v) is not vtype`), so a container
+    mixing a class with its subclasses travels as variants;
+  * fixes/C19-03: the empty tuple and dict keys whose signature is not one basic type code raise
+    MarshallingError (there is no DBus type).
+The code as it was at the snapshot is `sigFromPyOrig` in Wire/InferOrig.lean (witnesses only).
 Mirrors the order of the tests:
 
   1. `getattr(pobj, 'dbusSignature', None)`   (wrapper classes, objects carrying the attribute)
   2. bool  3. int  4. float  5. str  6. bytearray
-  7. list : `[]` -> 'av'; all later elements `isinstance(v, type(pobj[0]))` -> 'a' + sig(first); else 'av'
-  8. tuple: '(' + concatenation of the element signatures + ')'      (the empty tuple gives '()')
-  9. dict : `{}` -> 'a{sv}'; `vtype = type(first value)`; `same` iff every later value is an instance
-            of it; the key signature is taken from the LAST key of the iteration (loop variable `k`
-            after the loop), the value signature from the FIRST value:
-            same -> 'a{' sig(k_last) sig(v_first) '}', else 'a{' sig(k_last) 'v}'.  Keys are never compared.
+  7. list : `[]` -> 'av'; every later element `type(v) is type(pobj[0])` -> 'a' + sig(first); else 'av'
+  8. tuple: `()` -> MarshallingError; else '(' + concatenation of the element signatures + ')'
+  9. dict : `{}` -> 'a{sv}'; `vtype = type(first value)`; `same` iff every later value has exactly that class;
+            `ksig = sigFromPy(k)` for the LAST key of the iteration (loop variable after the loop), which must be
+            one of the 13 basic codes, else MarshallingError; then
+            same -> 'a{' ksig sig(v_first) '}', else 'a{' ksig 'v}'.  Keys are never compared with each other.
  10. anything else: MarshallingError.
 Core Lean only.
 -/
@@ -26,11 +29,19 @@ def intSig (n : Int) : List Char :=
   else if -9223372036854775808 ≤ n ∧ n < 9223372036854775808 then ['x']
   else ['t']
 
-/-- `all(isinstance(v, vtype) for v in xs)` - the list rule's `same` flag. -/
-def allInstances (c : PyClass) (xs : List PyVal) : Bool := xs.all (·.isInstance c)
+/-- `all(type(v) is vtype for v in xs)` - the list rule's `same` flag. -/
+def allSameType (c : PyClass) (xs : List PyVal) : Bool := xs.all (·.pyType == c)
 
 /-- The dict rule's `same` flag over the items after the first. -/
-def allValueInstances (c : PyClass) (kvs : List (PyVal × PyVal)) : Bool := kvs.all (·.2.isInstance c)
+def allValuesSameType (c : PyClass) (kvs : List (PyVal × PyVal)) : Bool := kvs.all (·.2.pyType == c)
+
+/-- The literal `'ybnqiuxtdsogh'` of the key test. -/
+def basicCodes : List Char := ['y', 'b', 'n', 'q', 'i', 'u', 'x', 't', 'd', 's', 'o', 'g', 'h']
+
+/-- `not (len(ksig) != 1 or ksig not in 'ybnqiuxtdsogh')`. -/
+def isBasicSig : List Char → Bool
+  | [c] => basicCodes.contains c
+  | _ => false
 
 mutual
 def sigFromPy : PyVal → Except PyErr (List Char)
@@ -48,13 +59,14 @@ def sigFromPy : PyVal → Except PyErr (List Char)
   | .bytearray _ => .ok ['a', 'y']
   | .list [] => .ok ['a', 'v']
   | .list (x :: xs) =>
-    if allInstances x.pyType xs then
+    if allSameType x.pyType xs then
       match sigFromPy x with
       | .ok s => .ok ('a' :: s)
       | .error e => .error e
     else .ok ['a', 'v']
-  | .tuple xs =>
-    match sigConcat xs with
+  | .tuple [] => .error .marshalling
+  | .tuple (x :: xs) =>
+    match sigConcat (x :: xs) with
     | .ok s => .ok ('(' :: (s ++ [')']))
     | .error e => .error e
   | .dict [] => .ok ['a', '{', 's', 'v', '}']
@@ -62,11 +74,13 @@ def sigFromPy : PyVal → Except PyErr (List Char)
     match sigLastKey ((k, v) :: rest) with
     | .error e => .error e
     | .ok ks =>
-      if allValueInstances v.pyType rest then
-        match sigFromPy v with
-        | .error e => .error e
-        | .ok vs => .ok ('a' :: '{' :: (ks ++ vs ++ ['}']))
-      else .ok ('a' :: '{' :: (ks ++ ['v', '}']))
+      if isBasicSig ks then
+        if allValuesSameType v.pyType rest then
+          match sigFromPy v with
+          | .error e => .error e
+          | .ok vs => .ok ('a' :: '{' :: (ks ++ vs ++ ['}']))
+        else .ok ('a' :: '{' :: (ks ++ ['v', '}']))
+      else .error .marshalling
   | .obj _ (some s) _ => .ok s
   | .obj _ Option.none _ => .error .marshalling
   | .other _ => .error .marshalling
